@@ -75,6 +75,8 @@ def gen_tree(r, cfg, only_empty=False):
         else:
             data = bytes(size)
         files[rel] = (data, 10 ** 18 + r.randrange(0, 10 ** 15))
+        if r.random() < 0.1:      # boundary time stamps: the epoch itself, below one second, exactly one second, 2038, beyond 32 bits
+            files[rel] = (data, r.choice([0, 0, 1, 999_999_999, 10 ** 9, (2 ** 31 - 1) * 10 ** 9, 2 ** 31 * 10 ** 9 + 5, 2 ** 32 * 10 ** 9 + 1]))
     return files
 
 
